@@ -3,7 +3,9 @@ package meta
 import (
 	"bytes"
 	"errors"
+	"regexp/syntax"
 	"sync"
+	"unicode/utf8"
 
 	"github.com/coregx/coregex/dfa/lazy"
 	"github.com/coregx/coregex/literal"
@@ -21,27 +23,36 @@ var ErrNoMultilinePrefilter = errors.New("no prefilter available for multiline s
 //   - The pattern is anchored at start of LINE (^), not start of TEXT (\A)
 //   - Has a good suffix literal for prefiltering
 //   - Match can occur at ANY line start, not just position 0
+//   - The pattern cannot match '\n', so a match never leaves the line it starts on
+//     (strategy selection guarantees this, see isSafeForMultilineReverseSuffix)
 //
-// Algorithm (fast path for simple patterns like `(?m)^prefix.*suffix`):
-//  1. Prefilter finds suffix candidates in haystack (SIMD memmem)
-//  2. For each candidate:
-//     - Scan backward to find LINE start (\n or start of input)
-//     - Verify prefix literal at line start (simple byte comparison)
-//     - If prefix matches, return match immediately
-//
-// Algorithm (slow path for complex patterns):
-//  1. Same as fast path for candidate finding
-//  2. Use forward DFA for verification
+// Algorithm:
+//  1. Prefilter finds the next suffix candidate in the haystack (SIMD memmem).
+//     Lines without a candidate cannot hold a match and are never looked at.
+//  2. The match, if any, starts at the start of the candidate's line (the only
+//     place on that line where ^ holds). Scan backward to find it.
+//  3. Decide whether a match starts there:
+//     - reject at once if the line does not begin with the required prefix literal;
+//     - patterns of the exact shape `(?m)^prefix.*suffix` (or .+) are decided with
+//     byte comparisons alone: the greedy .* runs to the LAST suffix on the line
+//     that begins at or after the end of the prefix;
+//     - every other pattern is verified by the forward DFA anchored at the line start.
+//  4. If no match starts on this line, continue after the end of the line: the other
+//     candidates on it share the same line start and would fail the same way.
 //
 // Performance:
-//   - Fast path: O(n) with very low constant factor (just byte comparisons)
-//   - Slow path: O(n) with DFA overhead
-//   - Expected speedup: 50-100x for simple patterns like `(?m)^/.*\.php`
+//   - Every line is examined at most once and the verification never reads past
+//     the end of the line, so a search is O(n).
+//   - Literal-shape patterns need no DFA at all (50-100x faster than a forward
+//     scan for patterns like `(?m)^/.*\.php`).
 type MultilineReverseSuffixSearcher struct {
 	prefilter    prefilter.Prefilter
-	prefixBytes  []byte    // Prefix literal for fast verification (nil = use DFA)
+	prefixBytes  []byte    // Literal every match starts with (nil = none known); used to reject lines
+	suffixBytes  []byte    // Suffix literal (longest common suffix of the suffix literals)
 	suffixLen    int       // Length of the suffix literal
-	forwardDFA   *lazy.DFA // Fallback DFA for complex patterns
+	literalShape bool      // Pattern is exactly (?m)^prefixBytes.*suffixBytes (or .+): no DFA needed
+	minGap       int       // literalShape: minimum bytes between prefix and suffix (1 for .+)
+	forwardDFA   *lazy.DFA // Verifies all patterns that do not have the literal shape
 	fwdCachePool sync.Pool
 }
 
@@ -50,12 +61,12 @@ type MultilineReverseSuffixSearcher struct {
 // Requirements:
 //   - Pattern must have good suffix literals
 //   - Pattern must have multiline ^ anchor
+//   - Pattern must not be able to match '\n'
 //   - Prefilter must be available
 //
 // Parameters:
 //   - forwardNFA: the compiled forward NFA
 //   - suffixLiterals: extracted suffix literals from pattern
-//   - prefixLiterals: extracted prefix literals from pattern (may be nil)
 //   - config: DFA configuration for forward DFA cache
 //
 // Returns error if multiline reverse suffix optimization cannot be applied.
@@ -81,7 +92,7 @@ func NewMultilineReverseSuffixSearcher(
 		return nil, ErrNoMultilinePrefilter
 	}
 
-	// Build forward DFA for verification (always needed as fallback)
+	// Build forward DFA for verification
 	forwardDFA, err := lazy.CompileWithConfig(forwardNFA, config)
 	if err != nil {
 		return nil, err
@@ -90,6 +101,7 @@ func NewMultilineReverseSuffixSearcher(
 	s := &MultilineReverseSuffixSearcher{
 		prefilter:   pre,
 		prefixBytes: nil, // Will be set by SetPrefixLiterals if applicable
+		suffixBytes: suffixBytes,
 		forwardDFA:  forwardDFA,
 		suffixLen:   suffixLen,
 	}
@@ -99,13 +111,79 @@ func NewMultilineReverseSuffixSearcher(
 	return s, nil
 }
 
-// SetPrefixLiterals enables fast path verification using prefix literals.
-// Call this after construction if the pattern has a simple structure: ^prefix.*suffix
+// SetPrefixLiterals enables fast rejection of lines using prefix literals.
+// Every match starts with the longest common prefix of the prefix literals, so a
+// line that does not begin with it cannot hold a match. A line that does begin
+// with it still has to be verified (see SetLiteralShape for the one exception).
 func (s *MultilineReverseSuffixSearcher) SetPrefixLiterals(prefixLiterals *literal.Seq) {
 	if prefixLiterals != nil && !prefixLiterals.IsEmpty() {
 		// Get the longest common prefix for verification
 		s.prefixBytes = prefixLiterals.LongestCommonPrefix()
 	}
+}
+
+// SetLiteralShape enables DFA-free matching for patterns of the exact shape
+// `(?m)^prefix.*suffix` or `(?m)^prefix.+suffix` (literal, greedy dot-star or
+// dot-plus, literal - nothing else; the prefix may be empty): a line matches iff
+// it begins with prefix and contains suffix at least minGap bytes after the end
+// of prefix (0 for .*, 1 for .+), and the greedy wildcard makes the match end at
+// the last such suffix. The wildcard accepts any byte but '\n', so no other
+// verification is needed.
+// Call it only when multilineLiteralShape reports that shape for the pattern.
+func (s *MultilineReverseSuffixSearcher) SetLiteralShape(prefix, suffix []byte, minGap int) {
+	if len(suffix) == 0 {
+		return
+	}
+	s.prefixBytes = prefix
+	s.suffixBytes = suffix
+	s.suffixLen = len(suffix)
+	s.minGap = minGap
+	s.literalShape = true
+}
+
+// multilineLiteralShape reports whether re is exactly `(?m)^prefix.*suffix` or
+// `(?m)^prefix.+suffix`, possibly wrapped in capture groups: a line anchor, an
+// optional case-sensitive literal, a greedy .* or .+ that excludes '\n', and a
+// case-sensitive literal. It returns the two literals as UTF-8 bytes and the
+// minimum number of bytes between them.
+func multilineLiteralShape(re *syntax.Regexp) (prefix, suffix []byte, minGap int, ok bool) {
+	for re.Op == syntax.OpCapture && len(re.Sub) == 1 {
+		re = re.Sub[0] // the overall match bounds do not depend on an enclosing group
+	}
+	if re.Op != syntax.OpConcat || len(re.Sub) < 3 || len(re.Sub) > 4 {
+		return nil, nil, 0, false
+	}
+	if re.Sub[0].Op != syntax.OpBeginLine {
+		return nil, nil, 0, false
+	}
+
+	lits := re.Sub[1 : len(re.Sub)-2] // zero or one prefix literal
+	wild := re.Sub[len(re.Sub)-2]
+	lits = append(lits[:len(lits):len(lits)], re.Sub[len(re.Sub)-1])
+
+	if (wild.Op != syntax.OpStar && wild.Op != syntax.OpPlus) || wild.Flags&syntax.NonGreedy != 0 ||
+		len(wild.Sub) != 1 || wild.Sub[0].Op != syntax.OpAnyCharNotNL {
+		return nil, nil, 0, false
+	}
+	if wild.Op == syntax.OpPlus {
+		minGap = 1
+	}
+
+	for _, lit := range lits {
+		if lit.Op != syntax.OpLiteral || lit.Flags&syntax.FoldCase != 0 || len(lit.Rune) == 0 {
+			return nil, nil, 0, false
+		}
+		for _, r := range lit.Rune {
+			// '\n' would let the literal leave the line; an invalid rune has no encoding
+			if r == '\n' || !utf8.ValidRune(r) {
+				return nil, nil, 0, false
+			}
+		}
+	}
+	if len(lits) == 2 {
+		prefix = []byte(string(lits[0].Rune))
+	}
+	return prefix, []byte(string(lits[len(lits)-1].Rune)), minGap, true
 }
 
 // findLineStart scans backward from pos to find the start of the line.
@@ -126,10 +204,10 @@ func findLineStart(haystack []byte, pos int) int {
 }
 
 // verifyPrefix checks if the prefix literal matches at the given position.
-// Returns true if prefix matches or if no prefix verification is needed.
+// Returns true if it does, or if there is no prefix literal to check.
 func (s *MultilineReverseSuffixSearcher) verifyPrefix(haystack []byte, at int) bool {
 	if len(s.prefixBytes) == 0 {
-		return false // No fast path available
+		return true // Nothing known about the prefix: the line cannot be rejected
 	}
 	if at+len(s.prefixBytes) > len(haystack) {
 		return false
@@ -137,124 +215,56 @@ func (s *MultilineReverseSuffixSearcher) verifyPrefix(haystack []byte, at int) b
 	return bytes.HasPrefix(haystack[at:], s.prefixBytes)
 }
 
+// matchLine decides whether a match starts at lineStart, the start of the line
+// haystack[lineStart:lineEnd], and returns its end.
+func (s *MultilineReverseSuffixSearcher) matchLine(haystack []byte, lineStart, lineEnd int, fwdCache *lazy.DFACache) (end int, found bool) {
+	// Every match starts with the prefix literal
+	if !s.verifyPrefix(haystack, lineStart) {
+		return -1, false
+	}
+
+	if s.literalShape {
+		// (?m)^prefix.*suffix: the suffix must not overlap the prefix, and the
+		// greedy wildcard extends the match to the last suffix on the line.
+		from := lineStart + len(s.prefixBytes) + s.minGap
+		if from > lineEnd {
+			return -1, false
+		}
+		last := bytes.LastIndex(haystack[from:lineEnd], s.suffixBytes)
+		if last == -1 {
+			return -1, false
+		}
+		return from + last + s.suffixLen, true
+	}
+
+	// General case: the forward DFA, anchored at the line start, verifies the whole
+	// pattern (everything between prefix and suffix included) and finds the
+	// leftmost-first match end. The pattern cannot match '\n', so the scan stops
+	// at the end of the line at the latest.
+	end = s.forwardDFA.SearchAtAnchored(fwdCache, haystack, lineStart)
+	return end, end >= 0
+}
+
 // Find searches using suffix literal prefilter + line-aware verification.
-//
-// Fast path (when prefix literals available):
-//  1. Find suffix using SIMD prefilter
-//  2. Find line start (backward scan using SIMD)
-//  3. Verify prefix with simple byte comparison
-//  4. Return match immediately if prefix matches
-//  5. On failure, skip to next line (all candidates on same line will fail)
-//
-// Slow path (complex patterns):
-//  1. Same candidate finding
-//  2. Use forward DFA for verification
-//
-// Performance: O(n) with very low constant factor for fast path.
-// Key optimization: when prefix fails, skip entire line - avoids O(n²) worst case.
+// See the type documentation for the algorithm. Performance: O(n).
 func (s *MultilineReverseSuffixSearcher) Find(haystack []byte) *Match {
-	if len(haystack) == 0 {
+	start, end, found := s.FindIndicesAt(haystack, 0)
+	if !found {
 		return nil
 	}
-
-	// Iterate through suffix candidates
-	pos := 0
-	for {
-		// Find next suffix candidate using prefilter (SIMD accelerated)
-		suffixPos := s.prefilter.Find(haystack, pos)
-		if suffixPos == -1 {
-			return nil
-		}
-
-		// Find the start of the line containing this suffix
-		lineStart := findLineStart(haystack, suffixPos)
-
-		// Fast path: simple prefix verification (just byte comparison)
-		if len(s.prefixBytes) > 0 {
-			if s.verifyPrefix(haystack, lineStart) {
-				// Match found! No DFA needed.
-				return NewMatch(lineStart, suffixPos+s.suffixLen, haystack)
-			}
-			// Prefix doesn't match at this line start.
-			// Optimization: skip to next line - all other candidates on this line
-			// will have the same lineStart and will also fail.
-			nextLine := bytes.IndexByte(haystack[suffixPos:], '\n')
-			if nextLine == -1 {
-				return nil // No more lines
-			}
-			pos = suffixPos + nextLine + 1
-		} else {
-			// Slow path: use DFA for complex pattern verification
-			fwdCache := s.fwdCachePool.Get().(*lazy.DFACache)
-			end := s.forwardDFA.SearchAtAnchored(fwdCache, haystack, lineStart)
-			s.fwdCachePool.Put(fwdCache)
-			if end >= 0 {
-				return NewMatch(lineStart, end, haystack)
-			}
-			// Move past this suffix candidate
-			pos = suffixPos + 1
-		}
-
-		if pos >= len(haystack) {
-			return nil
-		}
-	}
+	return NewMatch(start, end, haystack)
 }
 
 // FindAt searches for a match starting from position 'at'.
 //
 // Returns the first match starting at or after position 'at'.
 // Essential for FindAll iteration.
-//
-// Performance: O(n) with very low constant factor for fast path.
-// Key optimization: when prefix fails, skip entire line - avoids O(n²) worst case.
 func (s *MultilineReverseSuffixSearcher) FindAt(haystack []byte, at int) *Match {
-	if at >= len(haystack) {
+	start, end, found := s.FindIndicesAt(haystack, at)
+	if !found {
 		return nil
 	}
-
-	pos := at
-	for {
-		// Find next suffix candidate starting from pos
-		suffixPos := s.prefilter.Find(haystack, pos)
-		if suffixPos == -1 {
-			return nil
-		}
-
-		// Find line start (but not before 'at' for FindAt semantics)
-		lineStart := findLineStart(haystack, suffixPos)
-		if lineStart < at {
-			// The line starts before our search position.
-			lineStart = at
-		}
-
-		// Fast path: simple prefix verification
-		if len(s.prefixBytes) > 0 {
-			if s.verifyPrefix(haystack, lineStart) {
-				return NewMatch(lineStart, suffixPos+s.suffixLen, haystack)
-			}
-			// Prefix doesn't match - skip to next line
-			nextLine := bytes.IndexByte(haystack[suffixPos:], '\n')
-			if nextLine == -1 {
-				return nil // No more lines
-			}
-			pos = suffixPos + nextLine + 1
-		} else {
-			// Slow path: use DFA
-			fwdCache := s.fwdCachePool.Get().(*lazy.DFACache)
-			end := s.forwardDFA.SearchAtAnchored(fwdCache, haystack, lineStart)
-			s.fwdCachePool.Put(fwdCache)
-			if end >= 0 {
-				return NewMatch(lineStart, end, haystack)
-			}
-			// Move past this suffix candidate
-			pos = suffixPos + 1
-		}
-
-		if pos >= len(haystack) {
-			return nil
-		}
-	}
+	return NewMatch(start, end, haystack)
 }
 
 // FindIndicesAt returns match indices starting from position 'at' - zero allocation version.
@@ -274,47 +284,39 @@ func (s *MultilineReverseSuffixSearcher) FindIndicesAtWithCaches(haystack []byte
 	return s.findIndicesAtImpl(haystack, at, fwdCache)
 }
 
-// findIndicesAtImpl is the shared implementation for FindIndicesAt and FindIndicesAtWithCaches.
+// findIndicesAtImpl is the shared implementation of all search methods.
 func (s *MultilineReverseSuffixSearcher) findIndicesAtImpl(haystack []byte, at int, fwdCache *lazy.DFACache) (start, end int, found bool) {
-	if at >= len(haystack) {
+	if at < 0 || at >= len(haystack) {
 		return -1, -1, false
 	}
 
 	pos := at
 	for {
-		// Find next suffix candidate starting from pos
+		// Find next suffix candidate starting from pos (SIMD accelerated)
 		suffixPos := s.prefilter.Find(haystack, pos)
 		if suffixPos == -1 {
 			return -1, -1, false
 		}
 
-		// Find line start (but not before 'at' for FindAt semantics)
+		// The line containing this candidate
 		lineStart := findLineStart(haystack, suffixPos)
-		if lineStart < at {
-			lineStart = at
+		lineEnd := len(haystack)
+		if nl := bytes.IndexByte(haystack[suffixPos:], '\n'); nl != -1 {
+			lineEnd = suffixPos + nl
 		}
 
-		// Fast path: simple prefix verification
-		if len(s.prefixBytes) > 0 {
-			if s.verifyPrefix(haystack, lineStart) {
-				return lineStart, suffixPos + s.suffixLen, true
+		// ^ holds only at the start of a line. A line that begins before 'at'
+		// cannot hold a match starting at or after 'at'.
+		if lineStart >= at {
+			if end, ok := s.matchLine(haystack, lineStart, lineEnd, fwdCache); ok {
+				return lineStart, end, true
 			}
-			// Prefix doesn't match - skip to next line
-			nextLine := bytes.IndexByte(haystack[suffixPos:], '\n')
-			if nextLine == -1 {
-				return -1, -1, false
-			}
-			pos = suffixPos + nextLine + 1
-		} else {
-			// Slow path: use DFA
-			endPos := s.forwardDFA.SearchAtAnchored(fwdCache, haystack, lineStart)
-			if endPos >= 0 {
-				return lineStart, endPos, true
-			}
-			// Move past this suffix candidate
-			pos = suffixPos + 1
 		}
 
+		// No match starts on this line. All other candidates on it share its
+		// line start and fail the same way: continue with the next line.
+		// (This also keeps the search linear: no line is verified twice.)
+		pos = lineEnd + 1
 		if pos >= len(haystack) {
 			return -1, -1, false
 		}
@@ -323,57 +325,9 @@ func (s *MultilineReverseSuffixSearcher) findIndicesAtImpl(haystack []byte, at i
 
 // IsMatch checks if the pattern matches using suffix prefilter + line-aware verification.
 //
-// Optimized for boolean matching:
-//   - Uses prefilter for fast candidate finding
-//   - Fast path: simple prefix byte comparison
-//   - Slow path: forward DFA verification
-//   - Early termination on first match
-//   - No Match object allocation
-//
-// Performance: O(n) with very low constant factor for fast path.
-// Key optimization: when prefix fails, skip entire line - avoids O(n²) worst case.
+// Optimized for boolean matching: early termination on first match, no Match
+// object allocation. Performance: O(n).
 func (s *MultilineReverseSuffixSearcher) IsMatch(haystack []byte) bool {
-	if len(haystack) == 0 {
-		return false
-	}
-
-	// Iterate through suffix candidates
-	pos := 0
-	for {
-		// Find next suffix candidate
-		suffixPos := s.prefilter.Find(haystack, pos)
-		if suffixPos == -1 {
-			return false
-		}
-
-		// Find line start
-		lineStart := findLineStart(haystack, suffixPos)
-
-		// Fast path: simple prefix verification
-		if len(s.prefixBytes) > 0 {
-			if s.verifyPrefix(haystack, lineStart) {
-				return true
-			}
-			// Prefix doesn't match - skip to next line
-			nextLine := bytes.IndexByte(haystack[suffixPos:], '\n')
-			if nextLine == -1 {
-				return false // No more lines
-			}
-			pos = suffixPos + nextLine + 1
-		} else {
-			// Slow path: use DFA
-			fwdCache := s.fwdCachePool.Get().(*lazy.DFACache)
-			matched := s.forwardDFA.SearchAtAnchored(fwdCache, haystack, lineStart) >= 0
-			s.fwdCachePool.Put(fwdCache)
-			if matched {
-				return true
-			}
-			// Move past this suffix candidate
-			pos = suffixPos + 1
-		}
-
-		if pos >= len(haystack) {
-			return false
-		}
-	}
+	_, _, found := s.FindIndicesAt(haystack, 0)
+	return found
 }
